@@ -725,8 +725,18 @@ func (x *c14X) checkLibInputs(g *c14Graph) {
 // datasource = observation and injection point on the library's walker goroutine
 
 type c14DS struct {
-	hist      map[osm.RelationID]osm.Relations
-	inner     *osm.HistoryDatasource // library-built datasource answering instead of hist
+	hist  map[osm.RelationID]osm.Relations
+	inner *osm.HistoryDatasource // library-built datasource answering instead of hist
+	// blocking lookup (a slow backend that honours its context): the blockAt-th call waits until
+	// the context it was GIVEN is done (then fails with its error) or the harness releases it
+	blockAt    int64
+	release    chan struct{}
+	blockedNow atomic.Bool
+	byCtx      atomic.Bool // the blocked lookup ended because its context became done
+	// probe: record how many ids the consumer had received when each lookup started
+	probe     bool
+	recv      atomic.Int64
+	recvAt    []int32
 	budget    int64
 	cancelAt  int64 // cancel the external context during the k-th call
 	cancel    context.CancelFunc
@@ -775,6 +785,24 @@ func (d *c14DS) RelationHistory(ctx context.Context, id osm.RelationID) (osm.Rel
 	}
 	if d.cancelAt > 0 && n == d.cancelAt {
 		d.cancel()
+	}
+	if d.probe {
+		// every send before this lookup has been received; give the consumer a moment to count it
+		for i := 0; i < 64; i++ {
+			runtime.Gosched()
+		}
+		d.recvAt = append(d.recvAt, int32(d.recv.Load()))
+	}
+	if d.blockAt > 0 && n == d.blockAt {
+		d.blockedNow.Store(true)
+		select {
+		case <-ctx.Done():
+			d.byCtx.Store(true)
+			d.blockedNow.Store(false)
+			return nil, ctx.Err()
+		case <-d.release:
+			d.blockedNow.Store(false)
+		}
 	}
 	c14Perturb(d.perturb, &d.spin)
 	if d.ctxAware && ctx.Err() != nil {
@@ -888,6 +916,8 @@ type c14Scn struct {
 	plan      int
 	ctxAware  bool
 
+	pre        int  // block stops: Next calls to make before waiting for the blocked lookup
+	probe      bool // record the consumer's progress at every lookup
 	lib        int  // 0: the harness' own datasource; 1..4: library-built (c14LibModes)
 	hardBudget bool // exhausting the datasource budget is a non-termination verdict (set by run)
 }
@@ -917,6 +947,9 @@ type c14Out struct {
 	overBudget bool
 	dumps      int64
 	leaks      []c14Leak
+	recvAt     []int32 // probe runs: ids received by the consumer when lookup i+1 started
+	blockMiss  bool    // block stops: the walker never arrived in the blocking lookup
+	byCtx      bool    // block stops: the blocked lookup ended because its context became done
 }
 
 func c14IDs(ids []osm.RelationID) string {
@@ -1013,6 +1046,9 @@ func (x *c14X) run(s *c14Scn) c14Out {
 	if s.lib > 0 {
 		ds.inner = x.libFor(g, s.lib).ds
 	}
+	ds.release = make(chan struct{})
+	defer close(ds.release) // whatever happens, a blocked lookup does not outlive the scenario
+	ds.probe = s.probe
 	st := &c14State{ds: ds}
 	var out c14Out
 	go func() {
@@ -1114,6 +1150,8 @@ func (x *c14X) body(s *c14Scn, st *c14State, out *c14Out, parent context.Context
 		ds.errAt = int64(s.j)
 	case "precancel":
 		cancel()
+	case "blockclose", "blockcancel":
+		ds.blockAt = int64(s.j)
 	}
 	cspin := ds.spin ^ 0x9E3779B97F4A7C15
 	req := append([]osm.RelationID(nil), s.req...)
@@ -1126,6 +1164,7 @@ func (x *c14X) body(s *c14Scn, st *c14State, out *c14Out, parent context.Context
 		st.call(func() { ok = o.Next() })
 		if ok {
 			out.emitted = append(out.emitted, o.RelationID())
+			ds.recv.Add(1)
 			return true
 		}
 		out.ended = true
@@ -1133,6 +1172,8 @@ func (x *c14X) body(s *c14Scn, st *c14State, out *c14Out, parent context.Context
 	}
 	pre := limit + 1
 	switch s.stop {
+	case "blockclose", "blockcancel":
+		pre = s.pre
 	case "close", "cancel", "cancel-nonext":
 		pre = s.j
 	case "precancel":
@@ -1177,6 +1218,25 @@ func (x *c14X) body(s *c14Scn, st *c14State, out *c14Out, parent context.Context
 		cancel()
 		// the consumer walks away without another Next: the walker must end on its own
 		x.goroutinesGone(base, out, "leak-after-cancel", "after context cancellation (no further Next, no Close)")
+	case "blockclose", "blockcancel":
+		// wait (bounded, yielding) until the walker sits in the blocking lookup; it gets there
+		// without another Next because the ids it emits before that lookup have been consumed
+		for i := 0; i < 1500 && !ds.blockedNow.Load(); i++ {
+			runtime.Gosched()
+			if i > 300 {
+				time.Sleep(20 * time.Microsecond)
+			}
+		}
+		out.stopInDS = ds.blockedNow.Load()
+		out.blockMiss = !out.stopInDS
+		if s.stop == "blockclose" {
+			doClose() // must make the context handed to the datasource done, or it waits for ever
+		} else {
+			cancel()
+		}
+		drain()
+		x.goroutinesGone(base, out, "leak-after-"+map[string]string{"blockclose": "close", "blockcancel": "cancel"}[s.stop], "after the stop hit a blocked lookup")
+		out.byCtx = ds.byCtx.Load()
 	case "dscancel":
 		// consumed until Next returned false
 		x.goroutinesGone(base, out, "leak-after-cancel", "after context cancellation inside the datasource (no Close)")
@@ -1188,7 +1248,7 @@ func (x *c14X) body(s *c14Scn, st *c14State, out *c14Out, parent context.Context
 		out.errNonNil = o.Err() != nil
 	}
 	out.overBound = len(out.emitted) > limit
-	if !closed && (s.stop == "" || s.stop == "dserr" || s.alsoClose) {
+	if !closed && (s.stop == "" || s.stop == "dserr" || s.stop == "blockcancel" || s.alsoClose) {
 		doClose()
 		x.goroutinesGone(base, out, "leak-after-close", "after Close")
 	}
@@ -1202,6 +1262,7 @@ func (x *c14X) body(s *c14Scn, st *c14State, out *c14Out, parent context.Context
 		}
 	}
 	out.dsCalls = ds.calls.Load()
+	out.recvAt = ds.recvAt
 	out.lateCalls = ds.lateCalls.Load()
 	out.overBudget = ds.over.Load()
 }
@@ -1211,6 +1272,12 @@ func (x *c14X) settle(s *c14Scn, out *c14Out) {
 	g := s.g
 	if out.stopInDS {
 		x.res.Add("stops_with_walker_inside_datasource", 1)
+	}
+	if out.blockMiss {
+		x.res.Add("block_stops_that_missed_the_lookup", 1)
+	}
+	if out.byCtx {
+		x.res.Add("blocked_lookups_released_by_"+map[string]string{"blockclose": "close", "blockcancel": "cancel"}[s.stop], 1)
 	}
 	if out.afterStop > 0 {
 		x.res.Add("ids_delivered_after_stop", int64(out.afterStop))
@@ -1394,7 +1461,7 @@ func (g *c14Graph) allIDs() []osm.RelationID {
 // cancellation / failure inside every datasource call of the undisturbed run.
 func (x *c14X) stopSweep(g *c14Graph, req []osm.RelationID, salt uint64, maxK int, lib int) {
 	plan := func(k int) int { return c14PlanFor(salt*31 + uint64(k)*7) }
-	full := x.run(&c14Scn{g: g, req: req, lib: lib, plan: plan(0)})
+	full := x.run(&c14Scn{g: g, req: req, lib: lib, plan: plan(0), probe: true})
 	L := len(full.emitted)
 	if L > 2*g.nHist+2 {
 		L = 2*g.nHist + 2
@@ -1415,6 +1482,13 @@ func (x *c14X) stopSweep(g *c14Graph, req []osm.RelationID, salt uint64, maxK in
 		// a failing datasource is outside the property: run (must end, Close must return), only
 		// the sequence oracles on what was emitted are evaluated
 		x.run(&c14Scn{g: g, req: req, lib: lib, stop: "dserr", j: k, plan: plan(k + 6)})
+		// a context-honouring datasource whose k-th lookup blocks: Close (or the parent's
+		// cancellation) issued while the walker is in there must end lookup, walker and iteration
+		if k <= len(full.recvAt) {
+			pre := int(full.recvAt[k-1])
+			x.run(&c14Scn{g: g, req: req, lib: lib, stop: "blockclose", j: k, pre: pre, plan: plan(k+8) % 7})
+			x.run(&c14Scn{g: g, req: req, lib: lib, stop: "blockcancel", j: k, pre: pre, plan: plan(k+9) % 7})
+		}
 	}
 }
 
@@ -1659,7 +1733,7 @@ func init() {
 		Rule: "Enumerated part: every reference graph on n relations (ids 1..n) in which each relation either has no history or has any of the 2^n sets of relation members, self included " +
 			"(n<=3 in quick: 3+25+729 graphs; n=4 added in thorough: 83 521 graphs, which contain all 65 536 digraphs with self-loops), each in four layouts (ascending, descending, one relation member per version behind a version of way/node members numbered like the relations, ascending with the ids 2^40, -7, 2^62+3, MinInt64+1 instead of 1..n), " +
 			"each iterated undisturbed for every ordered selection of its ids (all subsets, all orders, plus requests naming an id twice), and swept with Close / cancel / cancel-without-further-Next after every j=0..len+1 Next calls, " +
-			"cancel before creation, and cancel or failure inside every datasource call. Random part: PRNG graphs of 1..14 relations with histories (+<=3 ids without), 12 shapes (DAGs, chain, tree, island cycle, sparse/dense cyclic, ring, self-loops, complete), " +
+			"cancel before creation, cancel or failure inside every datasource call, and Close / parent cancel while the walker sits in a datasource lookup that blocks until the context it was given is done. Random part: PRNG graphs of 1..14 relations with histories (+<=3 ids without), 12 shapes (DAGs, chain, tree, island cycle, sparse/dense cyclic, ring, self-loops, complete), " +
 			"ids small, medium, up to 2^40 or of mixed magnitude within one graph (small, >2^31, >2^32, 2^40-1, 2^40, 2^40+k, 2^62+k, negative small and large, MinInt64+1; never 0), 1-4 versions with different members, node/way members whose refs equal relation ids, refs to relations without history; request lists: all / reversed / random orders, random subsets with unknown, history-less and repeated ids, every order of a 3-subset. " +
 			"Deep family (seed-independent): 352 chains of depth 99..300 (straddling the library's preallocated path capacity of 100), acyclic or closed at the bottom by a reference back to depth 0, 1, d-1, d-2, d/2, d-100 or by a 3-ring, plain / 2^40-straddling ids, plain / annotated members, with stops deep inside the recursion. " +
 			"Relation members carry annotation fields (Version, ChangesetID, Orientation, Lat/Lon, Role) in enumerated layout 1 and in 40% of the random graphs. " +
